@@ -32,6 +32,7 @@ type Engine struct {
 	timeoutS  int
 	verbose   bool
 	assumptions map[string]bool
+	tagSuffix   string
 	errGlobals  map[string]bool // G$pkg.Name of interface-typed globals initialised once to a fresh non-nil value
 }
 
@@ -53,7 +54,11 @@ func loadEngine(repo string, patterns []string, tags string) (*Engine, error) {
 	}
 	prog, _ := ssautil.AllPackages(pkgs, ssa.NaiveForm|ssa.GlobalDebug|ssa.InstantiateGenerics)
 	prog.Build()
-	e := &Engine{repo: repo, prog: prog, pkgs: map[string]*packages.Package{}, spkgs: map[string]*ssa.Package{}, contracts: map[string]*PkgContracts{},
+	suffix := ""
+	if strings.Contains(tags, ",") {
+		suffix = "@" + tags[strings.Index(tags, ",")+1:]
+	}
+	e := &Engine{tagSuffix: suffix, repo: repo, prog: prog, pkgs: map[string]*packages.Package{}, spkgs: map[string]*ssa.Package{}, contracts: map[string]*PkgContracts{},
 		funcs: map[string]*ssa.Function{}, typeTags: map[string]int{}, fnIDs: map[*ssa.Function]int{}, globals: map[*types.Var]*ssa.Global{}, assumptions: map[string]bool{}}
 	packages.Visit(pkgs, nil, func(p *packages.Package) {
 		e.pkgs[p.PkgPath] = p
@@ -395,13 +400,17 @@ func (e *Engine) propertyFuncs(id string) (out []propFn) {
 	for _, path := range sortedKeys(e.contracts) {
 		pc := e.contracts[path]
 		for _, k := range pc.Props[id] {
-			out = append(out, propFn{path, k})
+			tags := ""
+			if i := strings.Index(k, "@"); i >= 0 {
+				k, tags = k[:i], k[i+1:]
+			}
+			out = append(out, propFn{path, k, tags})
 		}
 	}
 	return
 }
 
-type propFn struct{ pkg, key string }
+type propFn struct{ pkg, key, tags string }
 
 func (e *Engine) allProperties() []string {
 	m := map[string]bool{}
